@@ -21,6 +21,8 @@ BUDGET_S = {'quick': 250, 'thorough': 2000}
 SHAPES = {
     'small': {'chars': 'abあ', 'char_w': 2, 'type_w': 1, 'dict_n': 2, 'char_ngrams': ['a', 'ab', 'あ'], 'type_ngrams': ['H', 'R'], 'n_dicts': 2, 'words': ['a', 'abあ'], 'extra_weights': 1},
     'deep': {'chars': 'abc', 'char_w': 3, 'type_w': 2, 'dict_n': 1, 'char_ngrams': ['abc', 'b', 'bc'], 'type_ngrams': ['KH', 'O', 'DD'], 'n_dicts': 3, 'words': ['b', 'ab'], 'extra_weights': 0},
+    # 'ab' is a non-entry state that inherits the output of entry 'b' (entry 'abc' has the non-entry prefix 'ab'); same for words
+    'inherit': {'chars': 'abc', 'char_w': 2, 'type_w': 2, 'dict_n': 2, 'char_ngrams': ['b', 'abc'], 'type_ngrams': ['H', 'KKH'], 'n_dicts': 1, 'words': ['b', 'abc'], 'extra_weights': 0},
     'nodict': {'chars': 'a', 'char_w': 1, 'type_w': 1, 'dict_n': 4, 'char_ngrams': ['a'], 'type_ngrams': ['T'], 'n_dicts': 0, 'words': [], 'extra_weights': 2},
 }
 BOUNDS = {
@@ -84,6 +86,24 @@ def trie(keys):
                 nxt = len(states); states.append({'gotos': {}, 'out': None}); states[cur]['gotos'][ch] = nxt
             cur = nxt
         states[cur]['out'] = ki
+    # Aho-Corasick completion as KyTea writes it: failure links, and every state lists its own entry first (if it is one) followed by the
+    # outputs inherited along its failure chain — a state that is NOT an entry (is_branch = 0) can therefore carry outputs
+    from collections import deque
+    for st in states:
+        st['fail'] = 0; st['outs'] = [] if st['out'] is None else [st['out']]
+    dq = deque()
+    for ch, nxt in states[0]['gotos'].items():
+        dq.append(nxt)
+    while dq:
+        r = dq.popleft()
+        for ch, nxt in states[r]['gotos'].items():
+            dq.append(nxt)
+            f = states[r]['fail']
+            while f and ch not in states[f]['gotos']:
+                f = states[f]['fail']
+            cand = states[f]['gotos'].get(ch, 0)
+            states[nxt]['fail'] = cand if cand != nxt else 0
+            states[nxt]['outs'] = states[nxt]['outs'] + [o for o in states[states[nxt]['fail']]['outs'] if o not in states[nxt]['outs']]
     return states
 
 
@@ -95,14 +115,14 @@ def write_dictionary(w, cmap, keys, n_dicts, write_entry):
     states = trie(keys)
     w.u32(len(states))
     for st in states:
-        w.u32(0)                       # failure
+        w.u32(st['fail'])              # failure
         w.u32(len(st['gotos']))
         for ch, nxt in st['gotos'].items():
             w.u16(cmap.index(ch) + 1); w.u32(nxt)
-        if st['out'] is not None:
-            w.u32(1); w.u32(st['out']); w.u8(1)
-        else:
-            w.u32(0); w.u8(0)
+        w.u32(len(st['outs']))
+        for o in st['outs']:
+            w.u32(o)
+        w.u8(1 if st['out'] is not None else 0)
     w.u32(len(keys))
     for ki in range(len(keys)):
         write_entry(ki)
@@ -402,6 +422,13 @@ def confirm(sc, replay):
             got = [d['weights'] for d in mj.get('dict', []) if d['word'] == wd]
             if not got or got[0] != want:
                 bad.append('dictionary word %r: %r vs file %r' % (wd, got, want))
+        # ... and nothing else: exactly the file's entries
+        extra_c = sorted(d['ngram'] for d in mj.get('char_ngrams', []) if d['ngram'] not in sh['char_ngrams'])
+        codes = [[P.TYPE_CODE[c] for c in g] for g in sh['type_ngrams']]
+        extra_t = [d['ngram'] for d in mj.get('type_ngrams', []) if d['ngram'] not in codes]
+        extra_w = sorted(d['word'] for d in mj.get('dict', []) if d['word'] not in sh['words'])
+        if extra_c or extra_t or extra_w:
+            bad.append('entries that are not in the file: char %r, type %r, words %r' % (extra_c, extra_t, extra_w))
         return bool(bad), {'native_violations': bad[:5]}
     return False, {'native': r}
 
